@@ -6,6 +6,7 @@ import torch.nn
 from torch import Size, Tensor, nn
 
 from ..core.abstractparameter import AbstractParameter
+from ..core.container import Container
 from ..core.utils import get_class, process_object, process_objects, register_class
 from ..distributions.distributions import Distribution, DistributionModel
 from ..nn.module import Module
@@ -38,6 +39,8 @@ class NormalizingFlow(DistributionModel):
         self.x = x
         self.base = base
         self.modules = modules
+        # listen to the layers: a change of their parameters changes this model
+        self.layer_models = Container(None, modules)
         self.layers = nn.ModuleList([t.module for t in modules])
         self.sum_log_abs_det_jacobians = None
         if device is not None or dtype is not None:
